@@ -29,5 +29,6 @@ func allCorpora(quick bool) []string {
 func c12documents(quick bool) []string {
 	docs := allCorpora(quick)
 	docs = append(docs, c04specValid, c04specInvalid, c05docA, c05docB)
+	docs = append(docs, c10multi...)
 	return docs
 }
